@@ -8,6 +8,7 @@ from .. import bits, fields
 from ..core import call_attr, calls_in, const, dotted, is_const, kwarg, norm, slice_parts, text, walk_local
 
 EXPLANATION = [
+    'C01.signed-names: every HCI field named *rssi* or *tx_power* is declared with a signed spec (they are signed octets in the specification).',
     'C01.family-registries: every sub-event family (LE Meta, vendor) owns its dispatch table, so an unknown sub-event of one family can never be parsed as a class of another; every from_parameters factory that rebuilds an object from its fields also keeps the received parameter bytes.',
     'C01.codec-arms: HCI_Object.parse_field and serialize_field are sibling `match` tables over the same spec literals; per literal the '
     'struct format, width, signedness and endianness agree and the consumed size equals the produced size; the length-prefixed and '
@@ -471,8 +472,9 @@ def frames(ctx):
         order_s = s2.find("fmt += 'I'") < s2.find("fmt += 'HH'")
         R.check(ok and order_p and order_s, rule, f'{H}.HCI_IsoDataPacket | optional sections', 'time stamp (I) then sequence/SDU info (HH) in the same order on both sides', 'ISO optional sections differ between parse and serialise', p.loc(fb))
         P = _word_fields_parse(fb, 'sdu_info')
-        ok = P.get('iso_sdu_length') == (0, 12) and P.get('packet_status_flag') == (15, 1) and 'self.iso_sdu_length | self.packet_status_flag << 15' in s2
-        R.check(ok, rule, f'{H}.HCI_IsoDataPacket | SDU info word', 'length 12 bits @0, status @15 on both sides', f'SDU info word: parsed {P}', p.loc(fb))
+        # Core Vol 4 Part E 5.4.5: ISO_SDU_Length bits 0-11, RFU 12-13, Packet_Status_Flag bits 14-15 (oracle)
+        ok = P.get('iso_sdu_length') == (0, 12) and P.get('packet_status_flag') == (14, 2) and 'self.iso_sdu_length | self.packet_status_flag << 14' in s2
+        R.check(ok, rule, f'{H}.HCI_IsoDataPacket | SDU info word', 'length 12 bits @0, 2-bit status @14 on both sides (as specified)', f'SDU info word: parsed {P} (specified: length (0, 12), status (14, 2))', p.loc(fb))
         R.check('should_include_sdu_info = not pb_flag & 1' in s1, rule, f'{H}.HCI_IsoDataPacket | SDU info presence', 'SDU info present iff first fragment / complete SDU (pb_flag bit 0 clear)', 'presence rule of the SDU info section changed', p.loc(fb))
         # the flag announced in the header and the presence of the section are the same predicate
         pi = p.find(f'{H}.HCI_IsoDataPacket.__post_init__')
@@ -531,7 +533,31 @@ def hm_classes(p, hm):
     return [c for q, c in p.classes.items() if c.module is hm]
 
 
+
+def signed_names(ctx):
+    """Quantities that are signed in the specification (RSSI, transmit power) are declared with a signed field spec."""
+    R, p = ctx.r, ctx.p
+    rule = 'C01.signed-names'
+    hm = p.modules.get(H)
+    n = 0
+    for c in hm_classes(p, hm):
+        for s_ in c.node.body:
+            if isinstance(s_, ast.AnnAssign) and isinstance(s_.target, ast.Name) and s_.value is not None:
+                nm = s_.target.id
+                if not ('rssi' in nm or 'tx_power' in nm):
+                    continue
+                md = [x for x in ast.walk(s_.value) if isinstance(x, ast.Call) and call_attr(x) in ('metadata',) or (isinstance(x, ast.Call) and dotted(x.func) == 'metadata')]
+                if not md or not md[0].args:
+                    continue
+                a = md[0].args[0]
+                n += 1
+                signed = (isinstance(a, ast.UnaryOp) and isinstance(a.op, ast.USub)) or not is_const(a)
+                R.check(signed, rule, f'{c.qual}.{nm}', 'signed field spec', f'{c.name}.{nm} is declared with the unsigned spec {norm(a)}: a negative value (dBm) cannot be serialised and parses back as value + 256', p.loc(s_))
+    R.check(n >= 15, rule, f'{H} | signed quantities', f'{n} rssi / tx_power fields', f'only {n} such fields found')
+
+
 RULES = [
+    ('C01.signed-names', signed_names),
     ('C01.family-registries', family_registries),
     ('C01.codec-arms', codec_arms),
     ('C01.enum-spec', enum_spec),
